@@ -361,6 +361,10 @@ struct SockEngine : Engine {
                 objs.emplace_back(new Tins::Loopback()); { Tins::Loopback* lo = new Tins::Loopback(); lo->inner_pdu(Tins::IP()); objs.emplace_back(lo); } objs.emplace_back(new Tins::RawPDU("abc")); objs.emplace_back(new Tins::ARP()); objs.emplace_back(new Tins::BootP()); objs.emplace_back(new Tins::DHCP()); objs.emplace_back(new Tins::DHCPv6()); objs.emplace_back(new Tins::DNS());
                 objs.emplace_back(new Tins::ICMP()); objs.emplace_back(new Tins::ICMPv6()); objs.emplace_back(new Tins::TCP()); objs.emplace_back(new Tins::UDP()); objs.emplace_back(new Tins::IP()); objs.emplace_back(new Tins::IPv6()); objs.emplace_back(new Tins::EthernetII()); objs.emplace_back(new Tins::Dot1Q());
                 { Tins::PDUCacher<Tins::IP>* pc = new Tins::PDUCacher<Tins::IP>(Tins::IP("10.0.0.1", "10.0.0.2") / Tins::UDP(1, 2)); objs.emplace_back(pc); }
+                // transports that delegate to a structured layer above them (a matcher that hands its inner matcher more than is left of the frame reads out of bounds only then)
+                { Tins::TCP* t = new Tins::TCP(); t->inner_pdu(Tins::DNS()); objs.emplace_back(t); } { Tins::UDP* u = new Tins::UDP(); u->inner_pdu(Tins::DNS()); objs.emplace_back(u); } { Tins::UDP* u = new Tins::UDP(); u->inner_pdu(Tins::DHCP()); objs.emplace_back(u); }
+                { Tins::TCP* t = new Tins::TCP((uint16_t)(q.smac.b[0] << 8 | q.smac.b[1]), (uint16_t)(q.smac.b[2] << 8 | q.smac.b[3]));   /* replies are addressed to the requester's MAC: its first four bytes read as the ports */ t->inner_pdu(Tins::DNS()); objs.emplace_back(t); }      /* ports that mirror the first bytes of an Ethernet frame */
+                { Tins::IP* i4 = new Tins::IP(); Tins::TCP t; t.inner_pdu(Tins::DNS()); i4->inner_pdu(t); objs.emplace_back(i4); } { Tins::ICMP* ic = new Tins::ICMP(); ic->inner_pdu(Tins::RawPDU("quoted")); objs.emplace_back(ic); }
                 for (auto& in : simnet::inbound) { const Bytes& f = in.frame; uint64_t hsh = fnv1a(f.data(), f.size());
                     size_t lens[12] = { 0, 1, 2, 3, 4, 7, 8, 9, f.size(), f.size() ? hsh % f.size() : 0, f.size() ? (hsh >> 16) % f.size() : 0, f.size() > 14 ? 14 + (hsh >> 32) % (f.size() - 14) : 0 };
                     for (size_t li = 0; li < 12; ++li) { size_t n = std::min(lens[li], f.size()); uint8_t* buf = (uint8_t*)malloc(n ? n : 1); if (n) memcpy(buf, f.data(), n); uint8_t* view = n ? buf : buf + 1;      /* n == 0: one past the block, any read is out of bounds */
